@@ -56,6 +56,7 @@ type State struct {
 	Dirty  map[string]bool     // arrays written on this path (names with prefix H:/M:/G:)
 	DirtyCells map[*Cell]bool
 	retSite string
+	pcSet  map[string]bool
 	Each   []*EachFact // element invariants of slices, instantiated at every element load
 	Defs   map[string]bool     // recursive spec-function applications already unfolded
 }
@@ -104,6 +105,17 @@ func (s *State) assume(t *Term) {
 	if t.IsTrue() {
 		return
 	}
+	if s.pcSet == nil {
+		s.pcSet = map[string]bool{}
+		for _, x := range s.PC {
+			s.pcSet[x.String()] = true
+		}
+	}
+	k := t.String()
+	if s.pcSet[k] {
+		return
+	}
+	s.pcSet[k] = true
 	s.PC = append(s.PC, t)
 }
 
